@@ -1,9 +1,384 @@
-(* C19/Proofs.v *)
-From Coq Require Import ZArith List Lia Bool.
+(* C19/Proofs.v -- event dispatch: the state machine of Model.v refines the history reading of Spec.v *)
+From Coq Require Import ZArith List Lia Bool Sorted.
 From PV Require Import C19.Model C19.Spec.
 Import ListNotations.
 Open Scope Z_scope.
 
-Lemma emit_silent_nothing (Arg Res : Type) (beh : func -> Z -> Arg -> Res) s ev snd a single :
-  flag s = true -> emit beh s ev snd a single = OEmit [] RNone.
-Proof. intros H. unfold emit. rewrite H. reflexivity. Qed.
+(* ---------- equality tests ---------- *)
+Lemma optZ_eqb_eq a b : optZ_eqb a b = true <-> a = b.
+Proof.
+  destruct a as [x|], b as [y|]; cbn [optZ_eqb]; split; intros H; try discriminate; try reflexivity.
+  - apply Z.eqb_eq in H. now subst.
+  - injection H as ->. apply Z.eqb_refl.
+Qed.
+
+Lemma func_eqb_eq f g : func_eqb f g = true <-> f = g.
+Proof.
+  destruct f as [i n o], g as [i' n' o']. unfold func_eqb. cbn [fn_id fn_name fn_owner].
+  rewrite !andb_true_iff, Z.eqb_eq, !optZ_eqb_eq. split.
+  - intros [[-> ->] ->]. reflexivity.
+  - intros H. injection H as -> -> ->. auto.
+Qed.
+
+Lemma is_some_eq_iff o x : is_some_eq o x = true <-> o = Some x.
+Proof.
+  destruct o as [y|]; cbn [is_some_eq]; split; intros H; try discriminate.
+  - apply Z.eqb_eq in H. now subst.
+  - injection H as ->. apply Z.eqb_refl.
+Qed.
+
+Lemma target_hits_iff t c : target_hits t c = true <-> Targets t c.
+Proof.
+  destruct t as [g|o]; cbn [target_hits Targets].
+  - apply func_eqb_eq.
+  - rewrite orb_true_iff, !is_some_eq_iff. tauto.
+Qed.
+
+(* ---------- list helpers ---------- *)
+Lemma filter_true {A} (f : A -> bool) (l : list A) : (forall x, f x = true) -> filter f l = l.
+Proof. intros H. induction l as [|x l IH]; cbn [filter]; [reflexivity|]. rewrite H, IH. reflexivity. Qed.
+
+Lemma filter_false {A} (f : A -> bool) (l : list A) : (forall x, f x = false) -> filter f l = [].
+Proof. intros H. induction l as [|x l IH]; cbn [filter]; [reflexivity|]. rewrite H, IH. reflexivity. Qed.
+
+Lemma filter_comm {A} (f g : A -> bool) (l : list A) : filter f (filter g l) = filter g (filter f l).
+Proof.
+  induction l as [|x l IH]; [reflexivity|]. cbn [filter].
+  destruct (g x) eqn:G, (f x) eqn:F; cbn [filter]; rewrite ?G, ?F, IH; reflexivity.
+Qed.
+
+Section Dispatch.
+Variables Arg Res : Type.
+Variable beh : func -> Z -> Arg -> Res.
+Notation op := (op Arg).
+
+Lemma kills_iff (o : op) c : kills o c = true <-> Kills o c.
+Proof.
+  unfold Kills. destruct o; cbn [kills]; split; intros H; try discriminate; try reflexivity; try (now left);
+    try (destruct H as [H|(it & t & H & _)]; discriminate).
+  - right. unfold hit in H. apply existsb_exists in H. destruct H as (t & Hin & Ht).
+    exists items, t. split; [reflexivity|]. split; [exact Hin|]. apply target_hits_iff, Ht.
+  - destruct H as [H|(it & t & H & Hin & Ht)]; [discriminate|]. injection H as ->.
+    unfold hit. apply existsb_exists. exists t. split; [exact Hin|]. apply target_hits_iff, Ht.
+Qed.
+
+Lemma survives_iff (later : list op) c :
+  survives later c = true <-> forall j o, nth_error later j = Some o -> ~ Kills o c.
+Proof.
+  unfold survives. rewrite forallb_forall. split.
+  - intros H j o Hn HK. apply nth_error_In in Hn. specialize (H o Hn).
+    apply kills_iff in HK. rewrite HK in H. discriminate.
+  - intros H o Hin. apply In_nth_error in Hin. destruct Hin as (j & Hj).
+    destruct (kills o c) eqn:E; [|reflexivity]. exfalso. apply (H j o Hj). apply kills_iff, E.
+Qed.
+
+(* ---------- the emit loop ---------- *)
+Lemma emit_loop_all ev snd a l calls res :
+  emit_loop beh false ev snd a l calls res =
+  OEmit (calls ++ map (call_of snd a) (filter (matches ev snd) l))
+        (RList (res ++ map (fun c => beh (e_func c) snd a) (filter (matches ev snd) l))).
+Proof.
+  revert calls res. induction l as [|c l IH]; intros calls res; cbn [emit_loop filter].
+  - cbn [map]. rewrite !app_nil_r. reflexivity.
+  - destruct (matches ev snd c) eqn:M.
+    + rewrite IH. cbn [map]. rewrite <- !app_assoc. reflexivity.
+    + apply IH.
+Qed.
+
+Lemma emit_loop_single ev snd a l calls res :
+  emit_loop beh true ev snd a l calls res =
+  match filter (matches ev snd) l with
+  | [] => OEmit calls (RList res)
+  | c :: _ => OEmit (calls ++ [call_of snd a c]) (RSingle (beh (e_func c) snd a))
+  end.
+Proof.
+  revert calls res. induction l as [|c l IH]; intros calls res; cbn [emit_loop filter]; [reflexivity|].
+  destruct (matches ev snd c) eqn:M; [reflexivity|]. apply IH.
+Qed.
+
+(* the code partitions ALL callbacks into non-last / last and then selects the matching ones in the
+   loop; the statement selects the matching ones and then orders them *)
+Lemma partition_then_match ev snd (l : list entry) :
+  filter (matches ev snd) (filter (fun c => negb (e_last c)) l ++ filter e_last l) =
+  expected ev snd l.
+Proof.
+  unfold expected. rewrite filter_app. f_equal; apply filter_comm.
+Qed.
+
+Lemma emit_spec s p ev snd a single :
+  cbs s = registered p -> flag s = silenced p ->
+  emit beh s ev snd a single = spec_emit beh p ev snd a single.
+Proof.
+  intros Hc Hf. unfold emit, spec_emit. rewrite Hf. destruct (silenced p); [reflexivity|].
+  rewrite Hc. destruct (truthy single).
+  - rewrite emit_loop_single, partition_then_match.
+    destruct (expected ev snd (registered p)) as [|c r]; reflexivity.
+  - rewrite emit_loop_all, partition_then_match. cbn [app]. rewrite map_map. reflexivity.
+Qed.
+
+(* ---------- registry ---------- *)
+Definition new_entry (o : op) : list entry :=
+  match o with
+  | Connect f st sf l => match entry_of f st sf l with Some c => [c] | None => [] end
+  | _ => []
+  end.
+
+Lemma survives_snoc (later : list op) o c :
+  survives (later ++ [o]) c = survives later c && negb (kills o c).
+Proof. unfold survives. rewrite forallb_app. cbn [forallb]. rewrite andb_true_r. reflexivity. Qed.
+
+Lemma registered_snoc (p : list op) (o : op) :
+  registered (p ++ [o]) = filter (fun c => negb (kills o c)) (registered p) ++ new_entry o.
+Proof.
+  induction p as [|x p IH].
+  - cbn [app registered filter]. unfold new_entry.
+    destruct o; reflexivity.
+  - rewrite <- app_comm_cons.
+    assert (G : forall rest, registered (p ++ [o]) = rest ->
+                registered (x :: p ++ [o]) =
+                match x with
+                | Connect f st sf l =>
+                    match entry_of f st sf l with
+                    | Some c => if survives (p ++ [o]) c then c :: rest else rest
+                    | None => rest end
+                | _ => rest end).
+    { intros rest <-. destruct x; reflexivity. }
+    rewrite (G _ IH). clear G.
+    destruct x; try reflexivity. cbn [registered].
+    destruct (entry_of f st sf last) as [c|]; [|reflexivity].
+    rewrite survives_snoc. destruct (survives p c); cbn [andb].
+    + cbn [filter]. destruct (negb (kills o c)); reflexivity.
+    + reflexivity.
+Qed.
+
+Lemma step_cbs s p (o : op) :
+  cbs s = registered p -> cbs (fst (step beh s o)) = registered (p ++ [o]).
+Proof.
+  intros H. rewrite registered_snoc, <- H. unfold new_entry.
+  destruct o; cbn [step kills].
+  - destruct (entry_of f st sf last); cbn [fst cbs].
+    + rewrite filter_true by reflexivity. reflexivity.
+    + rewrite filter_true by reflexivity. rewrite app_nil_r. reflexivity.
+  - cbn [fst cbs]. rewrite app_nil_r. reflexivity.
+  - cbn [fst cbs]. rewrite filter_false by reflexivity. reflexivity.
+  - cbn [fst cbs]. rewrite filter_true by reflexivity. rewrite app_nil_r. reflexivity.
+  - cbn [fst cbs]. rewrite filter_true by reflexivity. rewrite app_nil_r. reflexivity.
+  - destruct (saved s); cbn [fst cbs]; rewrite filter_true by reflexivity; rewrite app_nil_r; reflexivity.
+  - cbn [fst]. rewrite filter_true by reflexivity. rewrite app_nil_r. reflexivity.
+Qed.
+
+(* ---------- silencing ---------- *)
+(* the saved values on the stack of open silent() blocks: popping them all gives back the last
+   set_silent value, and every intermediate flag is True *)
+Fixpoint stack_inv (ls fl : bool) (sv : list bool) : Prop :=
+  match sv with [] => fl = ls | b :: r => fl = true /\ stack_inv ls b r end.
+
+Definition sil_inv (p : list op) (s : state) : Prop :=
+  length (filter is_enter p) = (length (filter is_exit p) + length (saved s))%nat /\
+  stack_inv (last_set false p) (flag s) (saved s).
+
+Lemma last_set_snoc d (p : list op) (o : op) :
+  last_set d (p ++ [o]) = match o with SetSilent b => b | _ => last_set d p end.
+Proof.
+  revert d. induction p as [|x p IH]; intros d.
+  - destruct o; reflexivity.
+  - rewrite <- app_comm_cons. destruct x; cbn [last_set]; apply IH.
+Qed.
+
+Lemma sil_inv_flag p s : sil_inv p s -> flag s = silenced p.
+Proof.
+  intros [Hn Hs]. unfold silenced, open_contexts. destruct (saved s) as [|b r]; cbn [stack_inv length] in *.
+  - replace (length (filter is_enter p) - length (filter is_exit p))%nat with 0%nat by lia.
+    cbn [Nat.ltb Nat.leb orb]. exact Hs.
+  - destruct Hs as [-> _].
+    destruct (0 <? length (filter is_enter p) - length (filter is_exit p))%nat eqn:E; [reflexivity|].
+    apply Nat.ltb_ge in E. lia.
+Qed.
+
+Lemma sil_step p s (o : op) rest :
+  sil_inv p s -> silent_ok_from (length (saved s)) (o :: rest) = true ->
+  sil_inv (p ++ [o]) (fst (step beh s o)) /\
+  silent_ok_from (length (saved (fst (step beh s o)))) rest = true.
+Proof.
+  intros [Hn Hs] Hok. unfold sil_inv. rewrite !filter_app, !app_length, last_set_snoc.
+  destruct o; cbn [silent_ok_from] in Hok; cbn [step filter is_enter is_exit length].
+  - destruct (entry_of f st sf last); cbn [fst saved flag]; (split; [split; [lia|exact Hs]|exact Hok]).
+  - cbn [fst saved flag]. split; [split; [lia|exact Hs]|exact Hok].
+  - cbn [fst saved flag]. split; [split; [lia|exact Hs]|exact Hok].
+  - cbn [fst saved flag]. apply andb_true_iff in Hok. destruct Hok as [Hd Hok].
+    apply Nat.eqb_eq in Hd. destruct (saved s); [|discriminate Hd].
+    split; [split; [cbn [length] in *; lia|reflexivity]|exact Hok].
+  - cbn [fst saved flag length stack_inv]. split; [split; [lia|split; [reflexivity|exact Hs]]|exact Hok].
+  - destruct (saved s) as [|b r]; cbn [length] in Hok; [discriminate|].
+    cbn [fst saved flag length stack_inv] in *. split; [split; [lia|apply Hs]|exact Hok].
+  - cbn [fst]. split; [split; [lia|exact Hs]|exact Hok].
+Qed.
+
+(* ---------- the refinement ---------- *)
+Definition inv (p : list op) (s : state) : Prop := cbs s = registered p /\ sil_inv p s.
+
+Lemma dispatch_gen (p2 : list op) : forall p s ev snd a single rest,
+  inv p s -> silent_ok_from (length (saved s)) p2 = true ->
+  nth_error (outs beh s (p2 ++ Emit ev snd a single :: rest)) (length p2) =
+  Some (spec_emit beh (p ++ p2) ev snd a single).
+Proof.
+  induction p2 as [|o p2 IH]; intros p s ev sd a single rest [Hc Hs] Hok.
+  - cbn [app outs length nth_error step snd]. rewrite app_nil_r. f_equal.
+    apply emit_spec; [exact Hc|apply sil_inv_flag, Hs].
+  - rewrite <- app_comm_cons. cbn [outs length nth_error].
+    destruct (sil_step p s o p2 Hs Hok) as [Hs' Hok'].
+    rewrite (IH (p ++ [o]) (fst (step beh s o)) ev sd a single rest).
+    + rewrite <- app_assoc. reflexivity.
+    + split; [apply step_cbs, Hc|exact Hs'].
+    + exact Hok'.
+Qed.
+
+Lemma inv_init : inv [] init.
+Proof. split; [reflexivity|]. split; reflexivity. Qed.
+
+Theorem dispatch : forall (p : list op) ev snd a single rest,
+  silent_ok p = true ->
+  nth_error (outs beh init (p ++ Emit ev snd a single :: rest)) (length p) =
+  Some (spec_emit beh p ev snd a single).
+Proof.
+  intros p ev snd a single rest Hok.
+  exact (dispatch_gen p [] init ev snd a single rest inv_init Hok).
+Qed.
+
+(* ---------- what "registered" means, by positions ---------- *)
+Lemma Registered_head (o : op) later c :
+  Registered (o :: later) 0 c <->
+  (exists f st sf l, o = Connect f st sf l /\ entry_of f st sf l = Some c) /\ survives later c = true.
+Proof.
+  unfold Registered. cbn [nth_error]. rewrite survives_iff. split.
+  - intros [(f & st & sf & l & H & He) Hk]. split.
+    + exists f, st, sf, l. split; [now injection H|exact He].
+    + intros j x Hj. apply (Hk (S j) x); [lia|exact Hj].
+  - intros [(f & st & sf & l & -> & He) Hk]. split.
+    + exists f, st, sf, l. split; [reflexivity|exact He].
+    + intros j x Hj Hn. destruct j as [|j]; [lia|]. apply (Hk j x Hn).
+Qed.
+
+Lemma Registered_tail (o : op) later i c :
+  Registered (o :: later) (S i) c <-> Registered later i c.
+Proof.
+  unfold Registered. cbn [nth_error]. split; intros [H1 H2]; (split; [exact H1|]).
+  - intros j x Hj Hn. apply (H2 (S j) x); [lia|exact Hn].
+  - intros j x Hj Hn. destruct j as [|j]; [lia|]. apply (H2 j x); [lia|exact Hn].
+Qed.
+
+Lemma registered_ix_spec (p : list op) : forall base,
+  map snd (registered_ix base p) = registered p /\
+  (forall i c, In (i, c) (registered_ix base p) <-> (base <= i)%nat /\ Registered p (i - base) c).
+Proof.
+  induction p as [|o later IH]; intros base.
+  - cbn [registered_ix registered map]. split; [reflexivity|]. intros i c. split; [intros []|].
+    intros [_ [(f & st & sf & l & H & _) _]]. destruct (i - base)%nat; discriminate H.
+  - destruct (IH (S base)) as [IHm IHi].
+    (* membership in the tail, re-indexed *)
+    assert (T : forall i c, In (i, c) (registered_ix (S base) later) <->
+                            (S base <= i)%nat /\ Registered (o :: later) (i - base) c).
+    { intros i c. rewrite IHi. split; intros [Hle HR]; (split; [exact Hle|]).
+      - replace (i - base)%nat with (S (i - S base)) by lia. exact (proj2 (Registered_tail o later _ c) HR).
+      - replace (i - base)%nat with (S (i - S base)) in HR by lia. exact (proj1 (Registered_tail o later _ c) HR). }
+    assert (N : forall r, (* generic shape when the head contributes nothing *)
+              (forall c, ~ Registered (o :: later) 0 c) ->
+              r = registered_ix (S base) later ->
+              forall i c, In (i, c) r <-> (base <= i)%nat /\ Registered (o :: later) (i - base) c).
+    { intros r Hno -> i c. rewrite T. split.
+      - intros [Hle HR]. split; [lia|exact HR].
+      - intros [Hle HR]. destruct (Nat.eq_dec i base) as [->|Hne].
+        + rewrite Nat.sub_diag in HR. exfalso. exact (Hno c HR).
+        + split; [lia|exact HR]. }
+    destruct o as [f st sf l|items| |b| | |ev snd a single];
+      try (cbn [registered_ix registered]; split; [exact IHm|];
+           apply N; [|reflexivity]; intros c HR; apply Registered_head in HR;
+           destruct HR as [(f' & st' & sf' & l' & H & _) _]; discriminate H).
+    cbn [registered_ix registered].
+    destruct (entry_of f st sf l) as [c0|] eqn:He.
+    + destruct (survives later c0) eqn:Hsv.
+      * cbn [map snd]. split; [f_equal; exact IHm|]. intros i c. cbn [In]. rewrite T. split.
+        -- intros [H|[Hle HR]].
+           ++ injection H as <- <-. split; [lia|]. rewrite Nat.sub_diag. apply Registered_head.
+              split; [exists f, st, sf, l; split; [reflexivity|exact He]|exact Hsv].
+           ++ split; [lia|exact HR].
+        -- intros [Hle HR]. destruct (Nat.eq_dec i base) as [->|Hne].
+           ++ left. rewrite Nat.sub_diag in HR. apply Registered_head in HR.
+              destruct HR as [(f' & st' & sf' & l' & H & He') _]. injection H as <- <- <- <-.
+              rewrite He in He'. injection He' as ->. reflexivity.
+           ++ right. split; [lia|exact HR].
+      * split; [exact IHm|]. apply N; [|reflexivity]. intros c HR. apply Registered_head in HR.
+        destruct HR as [(f' & st' & sf' & l' & H & He') Hs]. injection H as <- <- <- <-.
+        rewrite He in He'. injection He' as <-. rewrite Hsv in Hs. discriminate.
+    + split; [exact IHm|]. apply N; [|reflexivity]. intros c HR. apply Registered_head in HR.
+      destruct HR as [(f' & st' & sf' & l' & H & He') _]. injection H as <- <- <- <-.
+      rewrite He in He'. discriminate.
+Qed.
+
+Lemma registered_ix_sorted (p : list op) : forall base,
+  StronglySorted (fun a b => (fst a < fst b)%nat) (registered_ix base p).
+Proof.
+  induction p as [|o later IH]; intros base; [constructor|].
+  assert (G : forall c, StronglySorted (fun a b => (fst a < fst b)%nat)
+                                       ((base, c) :: registered_ix (S base) later)).
+  { intros c. constructor; [apply IH|]. apply Forall_forall. intros [i c'] Hin.
+    apply (proj2 (registered_ix_spec later (S base))) in Hin. cbn [fst]. lia. }
+  destruct o; cbn [registered_ix]; try apply IH.
+  destruct (entry_of f st sf last); [|apply IH]. destruct (survives later e); [apply G|apply IH].
+Qed.
+
+Theorem registered_meaning (p : list op) :
+  map snd (registered_ix 0 p) = registered p /\
+  StronglySorted (fun a b => (fst a < fst b)%nat) (registered_ix 0 p) /\
+  (forall i c, In (i, c) (registered_ix 0 p) <-> Registered p i c).
+Proof.
+  split; [apply registered_ix_spec|]. split; [apply registered_ix_sorted|].
+  intros i c. rewrite (proj2 (registered_ix_spec p 0)). rewrite Nat.sub_0_r. split; [tauto|]. intros H. split; [lia|exact H].
+Qed.
+
+(* ---------- shape of the expected call list ---------- *)
+(* every call goes to a registered callback for that event whose filter admits the sender, and
+   every such callback is called; non-last ones come first *)
+Lemma expected_in ev snd (reg : list entry) c :
+  In c (expected ev snd reg) <-> In c reg /\ matches ev snd c = true.
+Proof.
+  unfold expected. rewrite in_app_iff, !filter_In. destruct (e_last c); cbn [negb]; intuition congruence.
+Qed.
+
+Lemma expected_split ev snd (reg : list entry) :
+  exists l1 l2, expected ev snd reg = l1 ++ l2 /\
+                Forall (fun c => e_last c = false) l1 /\ Forall (fun c => e_last c = true) l2 /\
+                l1 = filter (fun c => negb (e_last c)) (filter (matches ev snd) reg) /\
+                l2 = filter e_last (filter (matches ev snd) reg).
+Proof.
+  eexists _, _. split; [reflexivity|]. split; [|split; [|split; reflexivity]].
+  - apply Forall_forall. intros c H. apply filter_In in H. destruct H as [_ H].
+    destruct (e_last c); [discriminate|reflexivity].
+  - apply Forall_forall. intros c H. apply filter_In in H. apply H.
+Qed.
+
+Lemma matches_iff ev snd c :
+  matches ev snd c = true <-> e_event c = ev /\ (e_sender c = None \/ e_sender c = Some snd).
+Proof.
+  unfold matches. rewrite andb_true_iff, Z.eqb_eq. destruct (e_sender c) as [s|].
+  - rewrite Z.eqb_eq. split; intros [H1 H2]; (split; [exact H1|]).
+    + right. now subst.
+    + destruct H2 as [H2|H2]; [discriminate|]. now injection H2.
+  - split; intros [H1 _]; (split; [exact H1|]); [now left|reflexivity].
+Qed.
+
+Lemma expected_in_prop ev snd (reg : list entry) c :
+  In c (expected ev snd reg) <->
+  In c reg /\ e_event c = ev /\ (e_sender c = None \/ e_sender c = Some snd).
+Proof. rewrite expected_in, matches_iff. reflexivity. Qed.
+End Dispatch.
+
+Lemma guard_needed :
+  exists (p : list (op Z)) ev snd a single,
+    silent_ok p = false /\
+    nth_error (outs (fun _ _ x => x) init (p ++ [Emit ev snd a single])) (length p) <>
+    Some (spec_emit (fun _ _ x => x) p ev snd a single).
+Proof.
+  exists [Connect (mkfunc 0 None None) (Explicit 0) None false; SilentEnter; SetSilent false], 0, 0, 5, None.
+  split; [reflexivity|]. vm_compute. intros H. discriminate H.
+Qed.
